@@ -190,7 +190,7 @@ let () =
 (* the tree-entry mode is no part of the model's entry record: the driver packs it into the (opaque) path
    number, e_name = 8 * path + mode, for the fine correspondence (so the model carries it along untouched and
    entry_eqb compares it), and strips it for the property oracles, which are about paths and content hashes *)
-let mode_names = [| "100644"; "100755"; "120000"; "100664"; "160000"; "-"; "?"; "?" |]
+let mode_names = [| "100644"; "100755"; "120000"; "100664"; "160000"; "tree-pointer-changed"; "base-name-changed"; "unknown-mode" |]
 let show_side = function
   | None -> "-"
   | Some e -> Printf.sprintf "%d/%s:%s" (int_of_n e.e_name / 8) mode_names.(int_of_n e.e_name mod 8)
@@ -357,10 +357,13 @@ let () =
           count (Printf.sprintf "large_1e%d" (String.length (string_of_int n_changes) - 1));
           tick "  stripped";
           if not (repairing_fast_b inp_p out_p) then begin
-            (* the fast oracle is sound, not complete (it wants the modifications first): the slow one decides, where
-               it is affordable *)
-            if n_changes <= 150000 && repairing_b inp_p out_p then count "fast_oracle_rejects_slow_accepts"
-            else propfail id ("the output is not a re-pairing of the input (" ^ string_of_int n_changes ^ " changes): " ^ show_changes out)
+            (* the fast oracle is sound, and complete when the output begins with the modifications in input order
+               (C13_repairing_fast_oracle_complete); otherwise the slow one decides, where it is affordable *)
+            let m = mods inp_p in
+            if take (List.length m) out_p = m then
+              propfail id ("the output is not a re-pairing of the input (" ^ string_of_int n_changes ^ " changes): " ^ show_changes out)
+            else if n_changes <= 150000 && repairing_b inp_p out_p then count "fast_oracle_rejects_slow_accepts"
+            else propfail id ("the output is not a re-pairing of the input (" ^ string_of_int n_changes ^ " changes, the modifications are not at the front): " ^ show_changes out)
           end;
           tick "  repairing_fast_b";
           if wf_hashes_b inp_p then begin
@@ -389,7 +392,7 @@ let () =
                 if !first_bad = "" then
                   first_bad := Printf.sprintf "hash %s: %d change(s) in, %d out carry it; out: %s" (String.concat "." (String.split_on_char ',' k))
                                  (List.length !i) (List.length !o) (show_changes (List.map (fun (f, t) ->
-                                    let up = function None -> None | Some e -> Some { e with e_name = n_of_int (8 * int_of_n e.e_name + 5) } in
+                                    let up = function None -> None | Some e -> Some { e with e_name = n_of_int (8 * int_of_n e.e_name) } in
                                     (up f, up t)) (List.rev !o)))
               end) (List.rev !keys);
             if !bad > 0 then
